@@ -2,6 +2,7 @@
 every control dimension: branch taken, optional present, array count, string length, mask pattern) produce the list
 of byte terms of the canonical encoding over fresh symbolic field variables plus the validity predicate."""
 import random
+import zlib
 import re
 import z3
 from . import wowm
@@ -447,7 +448,7 @@ def shapes(corpus, view, container, bounds, seed=0, record_elements=False):
     done = set()
     queue = [{}, {'__else__': True}]
     out = 0
-    rng = random.Random(seed * 7919 + hash(container['name']) % 1000)
+    rng = random.Random(seed * 7919 + zlib.crc32(container['name'].encode()) % 1000)
     tried = 0
     while queue and out < bounds.max_shapes and tried < bounds.max_shapes * 6:
         ov = queue.pop(0)
